@@ -361,6 +361,16 @@ func (p *Printer) Ret() string {
 	return "return nil"
 }
 
+// RetExpr renders `return e` of a generator: in the reference the operand is evaluated, ignored, and the body returns.
+func (p *Printer) RetExpr(e string) {
+	if p.Ref {
+		p.W("_ = %s", e)
+		p.W("return")
+		return
+	}
+	p.W("return %s", e)
+}
+
 // IterT renders the iterator type of element type t.
 func (p *Printer) IterT(t string) string {
 	if p.Ref {
@@ -401,7 +411,7 @@ func (p *Printer) Lines() string { return strings.Join(p.out, "\n") }
 
 // endsInJump: the last statement of l is a return (so no trailing return is needed).
 func endsInReturn(l List) bool {
-	return len(l) > 0 && l[len(l)-1].K == "Rt"
+	return len(l) > 0 && (l[len(l)-1].K == "Rt" || strings.HasPrefix(l[len(l)-1].K, "Rt"))
 }
 
 // endsInInfiniteLoop: the last statement is a condition-less loop without a break of its own, so
